@@ -18,6 +18,7 @@ from vf import core, pki
 from vf.refs import sb31_rom as rom
 
 ID = "C05"
+ROTATING_PKI = 0.3  # fraction of the key / certificate paths that are rotating slots (vf/pki.py)
 LEVEL = "exploration"
 TECHNIQUE = "runtime monitoring: independent ROM-loader model over exported files + signer hook + bit-flip sweep"
 RULE = (
